@@ -8,7 +8,7 @@
    exp/log/pow; [oq_equiv] — both undefined or both defined with Qeq values; [fi_proper fi] — fi respects
    Qeq; [exp_zero_one fi] — exp 0 = 1; [pow_base_one fi] — 1 ^ y = 1 for every y. *)
 From Coq Require Import Reals QArith List Bool PArith Arith.
-From PV Require Import Base.PyData Base.Expr Base.Interp Base.Stmts C09.Model C09.Proofs C09.ProofsExec C09.ProofsSurgery C09.ProofsExt C09.ProofsExt2 C09.ProofsR.
+From PV Require Import Base.PyData Base.Expr Base.Interp Base.Stmts C09.Model C09.Proofs C09.ProofsExec C09.ProofsSurgery C09.ProofsExt C09.ProofsExt2 C09.ProofsExt3 C09.ProofsR.
 Import ListNotations.
 Local Open Scope Q_scope.
 
@@ -361,6 +361,31 @@ Theorem set_iiv_on_ruv_program_sound :
     oq_equiv (exec fi ode r (set_iiv_on_ruv T [(eps, eta)] l) x)
              (exec fi ode (upd r eps (eval r fi (Mul (Sym eps) (Fn1 F_EXP (Sym eta))))) l x).
 Proof. intros; apply set_iiv_on_ruv_program_sound_lemma; assumption. Qed.
+
+(* set_iiv_on_ruv_program_sound_all — ANY list of (epsilon, eta) pairs (one shared eta or one eta per epsilon), every
+   program that does not assign the epsilons (nor the symbols of the substituted expressions), every template record
+   equal to the documented one, interpretation, ODE oracle, environment: every symbol other than the listed epsilons
+   has after the hand model of set_iiv_on_ruv (Statements.subs eps := eps*exp(eta), pair after pair) the value the
+   ORIGINAL program gives it in [ruv_scale ... r]; for pairwise distinct epsilons that are not used as etas that
+   environment is r with every listed epsilon replaced by eps * exp(its eta) and nothing else changed. *)
+Theorem set_iiv_on_ruv_program_sound_all :
+  forall (fi : finterp) (ode : id -> list (option Q) -> option Q) (T : templates) (pairs : list (id * id))
+         (l : list stmt) (r : env),
+    fi_proper fi -> ode_proper ode -> templates_equiv T doc_templates ->
+    (forall p, In p pairs -> ~ In (fst p) (flat_map defs l) /\ ~ In (fst p) (ode_rhs l) /\
+                             forall y, In y (free_syms (iiv_on_ruv_expr T (fst p) (snd p))) -> ~ In y (flat_map defs l)) ->
+    (forall x, ~ In x (map fst pairs) ->
+       oq_equiv (exec fi ode r (set_iiv_on_ruv T pairs l) x) (exec fi ode (ruv_scale fi doc_ruv_expr pairs r) l x)) /\
+    (NoDup (map fst pairs) -> (forall p, In p pairs -> ~ In (snd p) (map fst pairs)) ->
+       (forall e n, In (e, n) pairs -> ruv_scale fi doc_ruv_expr pairs r e = eval r fi (Mul (Sym e) (Fn1 F_EXP (Sym n)))) /\
+       (forall z, ~ In z (map fst pairs) -> ruv_scale fi doc_ruv_expr pairs r z = r z)).
+Proof.
+  intros fi ode T pairs l r Hp Ho HT H. split.
+  - intros x Hx. apply set_iiv_on_ruv_list_lemma; assumption.
+  - intros Hnd Heta. split.
+    + intros e n Hin. apply (ruv_scale_value_lemma fi pairs r e n Hnd Heta Hin).
+    + intros z Hz. apply ruv_scale_other; exact Hz.
+Qed.
 
 (* ---- the distributions add_iov declares ------------------------------------------------------------------- *)
 (* iov_distributions_exact — for every naming of etas and omegas, group of eta positions and number K of occasion
